@@ -35,6 +35,8 @@ func replay(cw *caseWriter, path string) {
 		switch comp {
 		case 19, 1900:
 			c19exec(cw, strings.TrimRight(tag, "cb"), in)
+		case 1:
+			c01clExec(cw, tag, in)
 		case 5:
 			c05exec(cw, tag, in)
 		case 6:
